@@ -3,7 +3,9 @@ CONSTANTS
   PKeys = {"scan_id"}
   OKeys = {"scan_id"}
   KKeys = {"scan_id"}
-  Vals = {2}
+  PVals = {2}
+  OVals = {2}
+  KVals = {2}
   Idents = {11}
   VModes = {"accept", "reject"}
   NModes = {"identity"}
